@@ -24,6 +24,7 @@ func init() {
 			"O3 in-repo splitters read their source only through io.ReadFull (boundaries independent of read fragmentation); " +
 			"O4 a success return on the short-read path is reached only where the read error is io.ErrUnexpectedEOF (n>0 by io.ReadFull's contract) or where the buffered byte count was tested non-zero (no empty chunk); " +
 			"O5 Buzhash carry-over: the bytes kept for the next call start at the very index where the returned chunk ends, and end at the number of buffered bytes. " +
+			"O6 a splitter reading into a fresh buffer allocates it with its size field (= constructor argument), returns that buffer after a complete read and shrink(buffer, n) with the count of the same read after a short one, and the shrink helper returns buf[:n] or an n-byte copy. " +
 			"NOT decided: losslessness and determinism as such, Rabin/Buzhash boundary positions, the Rabin library internals, values of the mutable global DefaultBlockSize set by callers at run time, float32 rounding in the rabin-N guard (exact below 2^24).",
 		Assume:    []string{"io.ReadFull returns io.ErrUnexpectedEOF only with n>0 and io.EOF only with n==0", "github.com/whyrusleeping/chunker honours MinSize/MaxSize when MinSize >= its window size", "strconv.Atoi results are used as mathematical integers (no overflow below ChunkSizeLimit)"},
 		Technique: "interval analysis over dominating guard edges with inter-procedural requirement summaries (R-TAINT), constant relations from go/types (R-CONST), callee identity (R-API), edge dominance (R-DOM), value identity (R-FLOW)",
@@ -893,6 +894,135 @@ func runC06(c *an.Ctx) {
 		}
 	}
 	c.Min("O3 uses of the source reader in splitter methods", nReaders, 2)
+
+	// ---------------- O6 (round 2): a splitter that reads each chunk into a freshly allocated buffer returns exactly
+	// the bytes it read: the full buffer on the nil-error edge, shrink(buffer, n) with the count of that same read on
+	// the short-read edge; the shrink helper returns buffer[:n] or an n-byte copy of it; the buffer length is the
+	// configured chunk size.
+	nO6 := 0
+	isAllocOf := func(v ssa.Value) (ssa.Value, bool) { // returns the length operand
+		if call, ok := an.IsCallTo(v, an.M("github.com/libp2p/go-buffer-pool", "", "Get")); ok {
+			return call.Call.Args[0], true
+		}
+		if ms, ok := v.(*ssa.MakeSlice); ok {
+			return ms.Len, true
+		}
+		return nil, false
+	}
+	for _, T := range impls {
+		for _, fn := range p.Methods(ck, T.Obj().Name()) {
+			for _, rd := range an.Calls(fn, readFull) {
+				dst := rd.Common().Args[1]
+				lenV, fresh := isAllocOf(dst)
+				if !fresh {
+					continue // buffering splitter (Buzhash): covered by O5
+				}
+				ns := an.Result(rd, 0)
+				nilEdges := an.NilEdges(fn, an.ErrResult(rd), true)
+				// the chunk size: a field of the splitter
+				nO6++
+				var sizeFld *types.Var
+				for _, r := range an.Roots(an.XBStripConv(lenV), nil) {
+					if u, ok := r.(*ssa.UnOp); ok && u.Op == token.MUL {
+						if f, _ := an.FieldOf(u.X); f != nil {
+							sizeFld = f
+						}
+					}
+				}
+				okSize := sizeFld != nil && an.XBStripConv(lenV) != nil
+				if okSize {
+					_, isLoad := an.XBStripConv(lenV).(*ssa.UnOp)
+					okSize = isLoad
+				}
+				c.Check(okSize, "O6", "R-FLOW", an.FuncName(fn), "buffer-len=size-field", rd.Pos(),
+					"the read buffer has exactly the configured chunk size", "the buffer handed to io.ReadFull is not allocated with the splitter's size field itself: chunks are longer or shorter than the configured size")
+				if sizeFld != nil {
+					// the field is stored from the constructor's size parameter
+					nSt := 0
+					for _, g := range fns {
+						for _, st := range an.FieldStores(g, sizeFld) {
+							nSt++
+							_, isPar := an.XBStripConv(st.Val).(*ssa.Parameter)
+							c.Check(isPar, "O6", "R-FLOW", an.FuncName(g), "size-field=ctor-param", st.Pos(),
+								"the size field holds the constructor's size argument", "the splitter's size field is not the constructor's size argument")
+						}
+					}
+					c.Min("O6 stores to the splitter size field", nSt, 1)
+				}
+				for _, ret := range an.Returns(fn) {
+					if len(ret.Results) != 2 || !an.IsNilConst(ret.Results[1]) || an.IsNilConst(ret.Results[0]) || !an.Reaches(fn, rd, ret, nil, nil) {
+						continue
+					}
+					nO6++
+					res := ret.Results[0]
+					if !an.Reaches(fn, rd, ret, nilEdges, nil) {
+						// only reachable with err == nil: the whole buffer
+						c.Check(res == dst, "O6", "R-FLOW", an.FuncName(fn), "full-read-returns-buffer", ret.Pos(),
+							"a complete read returns the buffer that was filled", "after a complete io.ReadFull the splitter returns something other than the buffer it filled: bytes are dropped, duplicated or re-sliced")
+						continue
+					}
+					// short read: shrink(dst, n)
+					call, isCall := res.(*ssa.Call)
+					okShort := false
+					var helper *ssa.Function
+					if isCall && len(call.Call.Args) == 2 && call.Call.Args[0] == dst {
+						for _, n := range ns {
+							if call.Call.Args[1] == n {
+								okShort = true
+							}
+						}
+						helper = an.Callee(call).Static
+					}
+					if sl, ok := res.(*ssa.Slice); ok && sl.X == dst && sl.Low == nil {
+						for _, n := range ns {
+							if sl.High == n {
+								okShort = true
+							}
+						}
+					}
+					c.Check(okShort, "O6", "R-FLOW", an.FuncName(fn), "short-read-returns-buffer[:n]", ret.Pos(),
+						"a short read returns the first n bytes of the buffer, n being the count of that read", "after a short io.ReadFull the splitter does not return the first n bytes (n = count returned by that read) of the buffer it filled: the last chunk loses or gains bytes")
+					if helper != nil && helper.Blocks != nil && len(helper.Params) == 2 {
+						buf, n := ssa.Value(helper.Params[0]), ssa.Value(helper.Params[1])
+						for _, hr := range an.Returns(helper) {
+							if len(hr.Results) != 1 || an.IsNilConst(hr.Results[0]) {
+								continue
+							}
+							nO6++
+							okH := true
+							for _, root := range an.Roots(hr.Results[0], &an.FlowOpts{StopAt: func(v ssa.Value) bool { _, isSl := v.(*ssa.Slice); return isSl }}) {
+								switch x := root.(type) {
+								case *ssa.Slice:
+									if !(x.X == buf && x.Low == nil && x.High == n) {
+										okH = false
+									}
+								case *ssa.MakeSlice:
+									if x.Len != n {
+										okH = false
+									}
+								default:
+									okH = false
+								}
+							}
+							// a fresh slice must be filled by copy(fresh, buf) before it is returned
+							if _, isSl := hr.Results[0].(*ssa.Slice); !isSl {
+								copied := false
+								for _, cp := range an.Calls(helper, an.M("builtin", "", "copy")) {
+									if cp.Common().Args[0] == hr.Results[0] && cp.Common().Args[1] == buf && an.Dominates(cp, hr) {
+										copied = true
+									}
+								}
+								okH = okH && copied
+							}
+							c.Check(okH, "O6", "R-FLOW", an.FuncName(helper), "shrink-returns-buf[:n]-or-n-byte-copy", hr.Pos(),
+								"the shrink helper returns buf[:n] or an n-byte copy of buf", "the helper that shrinks the last chunk returns something other than buf[:n] / an n-byte copy of buf: the last chunk is truncated, padded or empty")
+						}
+					}
+				}
+			}
+		}
+	}
+	c.Min("O6 fresh-buffer read constructs", nO6, 3)
 	c.Min("O4 success returns on short-read paths", nShort, 2)
 	c.Min("O5 carry-over copies", nCarry, 1)
 }
